@@ -31,6 +31,7 @@
 (*                                                                         *)
 (* Configurations (all closed: explored to a fixed point):                 *)
 (*  MC_DebFile_sets          all 2^15 subsets of the 15-name universe      *)
+(*  MC_DebFile_sets_quick    all 2^13 subsets of the 13-name QuickUniverse *)
 (*  MC_DebFile_orders(_quick) all injective member sequences of length     *)
 (*                           <= 4 (<= 3) over the universe                 *)
 (*  MC_DebFile_orders_mid    all injective sequences of length <= 5 over   *)
@@ -104,6 +105,11 @@ FullUniverse == <<"debian-binary",
                   "control.tar", "control.tar.gz", "control.tar.bz2", "control.tar.xz", "control.tar.lzma",
                   "data.tar", "data.tar.gz", "data.tar.bz2", "data.tar.xz", "data.tar.lzma",
                   "_gpgorigin", "control.tar.zst", "data.tar.gz.bak", "control.tar.Z">>
+\* quick tier: the same without two of the four foreign names (2^13 subsets)
+QuickUniverse == <<"debian-binary",
+                   "control.tar", "control.tar.gz", "control.tar.bz2", "control.tar.xz", "control.tar.lzma",
+                   "data.tar", "data.tar.gz", "data.tar.bz2", "data.tar.xz", "data.tar.lzma",
+                   "_gpgorigin", "control.tar.zst">>
 OneUniverse  == <<"debian-binary", "control.tar.gz", "data.tar.xz">>
 \* two candidates per part and the four foreign names: long member orders stay enumerable
 MidUniverse  == <<"debian-binary", "control.tar", "control.tar.xz", "data.tar", "data.tar.gz",
